@@ -1,11 +1,13 @@
 """Slot sweep through the REAL public API: which (object type, keyword, value
-alternative) mini-documents load to their intended structure, print, re-load and
-validate.  Used by C19 (as its hunter) and by every generator (to stay inside
-the vocabulary that works, so that one slot defect is reported once, by C19)."""
+alternative) mini-documents load to their intended structure at the root and
+nested in a parent block, in first / middle / last position.  C19 reports the
+slots that fail; every other generator stays inside the vocabulary that works,
+so that one slot defect is reported once, by C19."""
+import os, json, hashlib, glob
 from collections import OrderedDict
 from gens import docs
 
-
+ROOT = os.path.dirname(os.path.dirname(os.path.dirname(os.path.abspath(__file__))))
 _workers = {}
 
 
@@ -40,33 +42,142 @@ def same(a, b):
     return type(a) is type(b) and a == b
 
 
-def check_slot(objtype, item, position="only", filler=None):
-    """-> (ok, stage, detail)"""
-    import mappyfile
-    doc = docs.mini_doc(objtype, item, position, filler)
+_parents = None
+
+
+def parent_chain(objtype):
+    """[(type, singleton)] from the root MAP down to objtype (shortest), or None"""
+    global _parents
+    if _parents is None:
+        _parents = {"map": None}
+        queue = ["map"]
+        while queue:
+            p = queue.pop(0)
+            for key, ty, singleton in docs.children_of(p):
+                if ty not in _parents:
+                    _parents[ty] = (p, singleton)
+                    queue.append(ty)
+    if objtype not in _parents:
+        return None
+    chain = []
+    cur = objtype
+    single = False
+    while cur is not None:
+        nxt = _parents[cur]
+        chain.append((cur, nxt[1] if nxt else False))
+        cur = nxt[0] if nxt else None
+    return list(reversed(chain))
+
+
+def nest(objtype, inner_block):
+    """wrap inner_block (of type objtype) in its parent chain; returns the root block"""
+    chain = parent_chain(objtype)
+    if not chain or len(chain) == 1:
+        return inner_block
+    inner_block.singleton = chain[-1][1]
+    cur = inner_block
+    for ty, singleton in reversed(chain[:-1]):
+        cur = docs.Block(ty, [cur], singleton)
+    return cur
+
+
+def fillers(objtype, avoid_key):
+    out = []
+    for pref in (lambda it: it.shape in ("string", "integer:3", "number:2.5"),
+                 lambda it: it.kind == "attr" and not it.repeated and it.shape not in ("enum:end", "enum:feature")):
+        for it in docs.slot_items(objtype):
+            if it.key != avoid_key and pref(it) and it.key not in [f.key for f in out]:
+                out.append(it)
+            if len(out) == 2:
+                return out
+    return out
+
+
+def try_doc(doc):
     text, _, _ = docs.render(doc, docs.Layout())
     want = docs.intended_block(doc)
     try:
         got = loads_plain(text)
     except Exception as ex:
-        return False, "parse", "%s: %s" % (type(ex).__name__, str(ex).splitlines()[0][:80] if str(ex) else "")
+        return False, "parse", "%s: %s" % (type(ex).__name__, (str(ex).splitlines() or [""])[0][:100]), text
     if not same(got, want):
-        return False, "structure", "got %r want %r" % (got.get(item.key, got), want.get(item.key))
-    return True, "ok", ""
+        return False, "structure", "loaded structure differs from the intended one", text
+    return True, "ok", "", text
+
+
+def slot_contexts(objtype, item):
+    """the mini documents a slot must survive: (context name, document)"""
+    out = [("root/only", docs.Block(objtype, [item], False))]
+    fl = fillers(objtype, item.key)
+    if parent_chain(objtype) and len(parent_chain(objtype)) > 1:
+        out.append(("nested/only", nest(objtype, docs.Block(objtype, [item], False))))
+        if fl:
+            out.append(("nested/first", nest(objtype, docs.Block(objtype, [item] + fl, False))))
+            out.append(("nested/last", nest(objtype, docs.Block(objtype, fl + [item], False))))
+            out.append(("nested/middle", nest(objtype, docs.Block(objtype, fl[:1] + [item] + fl[1:], False))))
+    elif fl:
+        out.append(("root/first", docs.Block(objtype, [item] + fl, False)))
+        out.append(("root/last", docs.Block(objtype, fl + [item], False)))
+        out.append(("root/middle", docs.Block(objtype, fl[:1] + [item] + fl[1:], False)))
+    return out
+
+
+def check_slot(objtype, item):
+    """-> list of (context, stage, detail, text) failures"""
+    bad = []
+    for name, doc in slot_contexts(objtype, item):
+        ok, stage, det, text = try_doc(doc)
+        if not ok:
+            bad.append((name, stage, det, text))
+    return bad
+
+
+def source_fingerprint():
+    repo = os.environ.get("VERIF_REPO", "/repo")
+    h = hashlib.sha1()
+    for f in sorted(glob.glob(os.path.join(repo, "mappyfile", "*.py")) + glob.glob(os.path.join(repo, "mappyfile", "*.lark"))
+                    + glob.glob(os.path.join(repo, "mappyfile", "schemas", "*.json")) + [__file__, docs.__file__]):
+        h.update(open(f, "rb").read())
+    return h.hexdigest()[:16]
 
 
 _usable = None
+_child_ok = None
 
 
 def usable_slots():
-    """objtype -> Items that parse to their intended structure alone and in first/last position"""
-    global _usable
-    if _usable is None:
-        _usable = {}
+    """objtype -> Items that load to their intended structure in every context (cached per source state)"""
+    global _usable, _child_ok
+    if _usable is not None:
+        return _usable
+    cache = os.path.join(ROOT, "build", "usable_%s.json" % source_fingerprint())
+    data = None
+    if os.path.exists(cache):
+        try:
+            data = json.load(open(cache))
+        except Exception:
+            data = None
+    if data is None:
+        data = {"slots": [], "children": []}
         for ot in docs.object_types():
-            good = []
             for it in docs.slot_items(ot):
-                if check_slot(ot, it)[0]:
-                    good.append(it)
-            _usable[ot] = good
+                if not check_slot(ot, it):
+                    data["slots"].append([ot, it.key, it.shape])
+            for key, ty, singleton in docs.children_of(ot):
+                child = docs.Block(ty, [], singleton)
+                doc = nest(ot, docs.Block(ot, [child], False)) if ot != "map" else docs.Block(ot, [child], False)
+                if try_doc(doc)[0]:
+                    data["children"].append([ot, ty])
+        os.makedirs(os.path.dirname(cache), exist_ok=True)
+        json.dump(data, open(cache, "w"))
+    good = set(tuple(x) for x in data["slots"])
+    _usable = {}
+    for ot in docs.object_types():
+        _usable[ot] = [it for it in docs.slot_items(ot) if (ot, it.key, it.shape) in good]
+    _child_ok = set(tuple(x) for x in data["children"])
     return _usable
+
+
+def usable_children():
+    usable_slots()
+    return _child_ok
